@@ -45,7 +45,8 @@ def _case(draw, op):
     if op.startswith("table_") and not m["env"]["table"]:
         m["env"]["table"] = [draw(gen.table_form("tab1", 6))]
     return {"model": m, "op": op, "site": draw(st.integers(0, 50)), "before": draw(st.booleans()),
-            "ws": draw(st.sampled_from([" ", "  ", "\t"]))}
+            # blanks, tabs and the non-ASCII blanks (no-break, thin, ideographic space): all are whitespace to str.split()
+            "ws": draw(st.sampled_from([" ", "  ", "\t", "\u00a0", "\u2009", "\u3000"]))}
 
 
 def strategy(tier):
